@@ -250,3 +250,521 @@ Proof.
   - (* low surrogate *)
     apply Z.ltb_ge in HI. assert (L5 : (56320 <=? u) = true) by (apply Z.leb_le; lia). rewrite L5. cbn. reflexivity.
 Qed.
+
+(** * Steps of the escape machines over string content *)
+Definition IsErr (o : outcome) : Prop := exists p e s', o = ODone p (Some e) s'.
+
+Section Esc.
+  Variable md : Z.
+  Variable rem_ : bool.
+  Variable data : list byte.
+  Variable h : handler.
+  Let pe := len data.
+
+  Notation ER := (EReach md rem_ data h).
+  Notation EE := (EEnds md rem_ data h).
+  Notation AtS := (At data).
+
+  (** plain bytes are appended one step late: [pend] is the byte read but not yet appended *)
+  Definition est (pend : option byte) : epos := match pend with None => EStart | Some _ => EPlain end.
+  Definition ldst (s : st) (pend : option byte) : list byte :=
+    match pend with None => s_dst s | Some b => s_dst s ++ [b] end.
+  Definition flushed (s : st) (pend : option byte) : st :=
+    match pend with None => s | Some b => set_dst s (s_dst s ++ [b]) end.
+  Definition Pend (s : st) (pend : option byte) (l : list byte) : Prop :=
+    match pend with None => True | Some pb => s_seg s = s_p s - 1 /\ AtP data (s_p s - 1) (pb :: l) end.
+  Definition closeu (pend : option byte) : list unit_ := match pend with Some _ => [UAppendSeg] | None => [] end.
+
+  (** what is unchanged along the way *)
+  Definition Same (s s' : st) : Prop := s_calls s' = s_calls s /\ s_val s' = s_val s /\ s_err s' = s_err s.
+  Lemma Same_refl : forall s, Same s s. Proof. intros s. repeat split. Qed.
+  Lemma Same_trans : forall a b c, Same a b -> Same b c -> Same a c.
+  Proof. intros a b c (A1 & A2 & A3) (B1 & B2 & B3). repeat split; congruence. Qed.
+
+  Lemma etrans_content : forall pend b,
+    etrans rem_ (est pend) b =
+    if isb 92 b then (closeu pend ++ [USegStart], Some EEsc)
+    else if isb 34 b then (if rem_ then (closeu pend, Some EDone) else ([], None))
+    else if r_is_ctl b then (if rem_ then ([UReturnErr EInvalidString], None) else ([], None))
+    else (closeu pend ++ [USegStart], Some EPlain).
+  Proof. intros [pb|] b; reflexivity. Qed.
+
+  Lemma close_exec : forall s pend l us, AtS s l -> Pend s pend l ->
+    exec_units md data h pe (closeu pend ++ us) s = exec_units md data h pe us (flushed s pend).
+  Proof.
+    intros s [pb|] l us H P; [|reflexivity]. destruct P as [SG [[A0 A1] SK]]. destruct H as [[P0 P1] _].
+    cbn [closeu app exec_units exec_unit flushed]. unfold slice. rewrite SG.
+    assert (C : (0 <=? s_p s - 1) && (s_p s - 1 <=? s_p s) && (s_p s <=? len data) = true).
+    { repeat (apply andb_true_iff; split); apply Z.leb_le; lia. }
+    rewrite C, SK. replace (Z.to_nat (s_p s - (s_p s - 1))) with 1%nat by lia. reflexivity.
+  Qed.
+
+  Lemma s_p_flushed : forall s pend, s_p (flushed s pend) = s_p s.
+  Proof. intros s [pb|]; reflexivity. Qed.
+  Lemma s_dst_flushed : forall s pend, s_dst (flushed s pend) = ldst s pend.
+  Proof. intros s [pb|]; reflexivity. Qed.
+  Lemma Same_flushed : forall s pend, Same s (flushed s pend).
+  Proof. intros s [pb|]; repeat split. Qed.
+
+  (** a plain content byte *)
+  Lemma step_plain : forall s pend b r, AtS s (b :: r) -> Pend s pend (b :: r) ->
+    isb 92 b = false -> isb 34 b = false -> r_is_ctl b = false ->
+    exists s', ER (est pend) s EPlain s' /\ AtS s' r /\ Pend s' (Some b) r /\ s_p s' = s_p s + 1 /\
+               ldst s' (Some b) = ldst s pend ++ [b] /\ Same s s'.
+  Proof.
+    intros s pend b r H P B Q C.
+    exists (adv (set_seg (flushed s pend) (s_p s)) 1).
+    assert (T : etrans rem_ (est pend) b = (closeu pend ++ [USegStart], Some EPlain)) by (rewrite etrans_content, B, Q, C; reflexivity).
+    split; [|split; [|split; [|split; [|split]]]].
+    - eapply EReach_step; [exact H|exact T| |cbn; rewrite s_p_flushed; lia].
+      fold pe. rewrite (close_exec s pend _ _ H P). cbn [exec_units exec_unit]. rewrite s_p_flushed. reflexivity.
+    - unfold At. cbn [s_p adv set_p set_seg]. rewrite s_p_flushed. destruct (AtP_cons data _ _ _ H) as (_ & _ & A). exact A.
+    - cbn [Pend s_seg s_p adv set_p set_seg]. rewrite s_p_flushed. split; [cbn; lia|].
+      replace (s_p s + Z.of_nat 1 - 1) with (s_p s) by (cbn; lia). exact H.
+    - cbn [s_p adv set_p set_seg]. rewrite s_p_flushed. reflexivity.
+    - cbn [ldst s_dst adv set_p set_seg]. rewrite s_dst_flushed. reflexivity.
+    - destruct (Same_flushed s pend) as (A1 & A2 & A3). repeat split; cbn; auto.
+  Qed.
+
+  (** a backslash: the pending byte is appended, the escape starts *)
+  Lemma step_bslash : forall s pend b r, AtS s (b :: r) -> Pend s pend (b :: r) -> isb 92 b = true ->
+    exists s', ER (est pend) s EEsc s' /\ AtS s' r /\ s_seg s' = s_p s' - 1 /\ AtP data (s_p s' - 1) (b :: r) /\
+               s_p s' = s_p s + 1 /\ s_dst s' = ldst s pend /\ Same s s'.
+  Proof.
+    intros s pend b r H P B.
+    exists (adv (set_seg (flushed s pend) (s_p s)) 1).
+    assert (T : etrans rem_ (est pend) b = (closeu pend ++ [USegStart], Some EEsc)) by (rewrite etrans_content, B; reflexivity).
+    split; [|split; [|split; [|split; [|split; [|split]]]]].
+    - eapply EReach_step; [exact H|exact T| |cbn; rewrite s_p_flushed; lia].
+      fold pe. rewrite (close_exec s pend _ _ H P). cbn [exec_units exec_unit]. rewrite s_p_flushed. reflexivity.
+    - unfold At. cbn [s_p adv set_p set_seg]. rewrite s_p_flushed. destruct (AtP_cons data _ _ _ H) as (_ & _ & A). exact A.
+    - cbn [s_seg s_p adv set_p set_seg]. rewrite s_p_flushed. cbn. lia.
+    - cbn [s_p adv set_p set_seg]. rewrite s_p_flushed. replace (s_p s + Z.of_nat 1 - 1) with (s_p s) by (cbn; lia). exact H.
+    - cbn [s_p adv set_p set_seg]. rewrite s_p_flushed. reflexivity.
+    - cbn [s_dst adv set_p set_seg]. apply s_dst_flushed.
+    - destruct (Same_flushed s pend) as (A1 & A2 & A3). repeat split; cbn; auto.
+  Qed.
+
+  Lemma escape_byte_simple : forall e x, simple_escape e = Some x -> escape_byte rem_ e = Some x.
+  Proof.
+    intros e x H. unfold simple_escape in H. unfold escape_byte. cbv zeta in *.
+    destruct (bz e =? 34); [exact H|]. destruct (bz e =? 92); [exact H|]. destruct (bz e =? 47); [exact H|].
+    destruct (bz e =? 98); [exact H|]. destruct (bz e =? 102); [exact H|]. destruct (bz e =? 110); [exact H|].
+    destruct (bz e =? 114); [exact H|]. destruct (bz e =? 116); [exact H|]. discriminate.
+  Qed.
+
+  (** a one-letter escape *)
+  Lemma step_simple : forall s e r1 x, AtS s (e :: r1) -> simple_escape e = Some x ->
+    ER EEsc s EStart (adv (set_dst s (s_dst s ++ [zb x])) 1).
+  Proof.
+    intros s e r1 x H SE.
+    assert (T : etrans rem_ EEsc e = ([UAppendByte x], Some EStart)) by (cbn [etrans]; rewrite (escape_byte_simple e x SE); reflexivity).
+    eapply EReach_step; [exact H|exact T|reflexivity|cbn; lia].
+  Qed.
+
+  (** a \uXXXX escape (and the low surrogate escape after it when they form a pair) *)
+  Lemma step_unicode : forall s bs e h1 h2 h3 h4 r2 u, AtS s (e :: h1 :: h2 :: h3 :: h4 :: r2) ->
+    s_seg s = s_p s - 1 -> AtP data (s_p s - 1) (bs :: e :: h1 :: h2 :: h3 :: h4 :: r2) ->
+    isb 92 bs = true -> isb 117 e = true -> hex4 h1 h2 h3 h4 = Some u ->
+    let bytes := match pair_of u r2 with Some v => utf8 (pair_cp u v) | None => single_bytes u end in
+    let extra := match pair_of u r2 with Some _ => 6%nat | None => 0%nat end in
+    exists s', ER EEsc s EStart s' /\ s_p s' = s_p s + Z.of_nat (5 + extra) /\ AtS s' (skipn extra r2) /\
+               s_dst s' = s_dst s ++ bytes /\ Same s s'.
+  Proof.
+    intros s bs e h1 h2 h3 h4 r2 u H SG AB B E HX bytes extra.
+    assert (SE : simple_escape e = None) by (apply Z.eqb_eq in E; unfold simple_escape; rewrite E; reflexivity).
+    assert (EB : escape_byte rem_ e = None).
+    { apply Z.eqb_eq in E. unfold escape_byte. rewrite E. destruct rem_; reflexivity. }
+    unfold hex4 in HX.
+    destruct (r_is_hex h1) eqn:X1; [|discriminate]. destruct (r_is_hex h2) eqn:X2; [|discriminate].
+    destruct (r_is_hex h3) eqn:X3; [|discriminate]. destruct (r_is_hex h4) eqn:X4; [|discriminate].
+    assert (HX' : hex4 h1 h2 h3 h4 = Some u) by (unfold hex4; rewrite X1, X2, X3, X4; exact HX).
+    assert (R1 : ER EEsc s EU4 (adv s 1)).
+    { assert (T : etrans rem_ EEsc e = ([], Some EU4)) by (cbn [etrans]; rewrite EB; unfold is; change (bz e =? 117) with (isb 117 e); rewrite E; reflexivity).
+      eapply EReach_step; [exact H|exact T|reflexivity|cbn; lia]. }
+    pose proof (At_adv1 data _ _ _ H) as H1.
+    assert (HS : forall s0 x rest e0 e1, AtS s0 (x :: rest) -> r_is_hex x = true ->
+               (e0 = EU4 /\ e1 = EU3) \/ (e0 = EU3 /\ e1 = EU2) \/ (e0 = EU2 /\ e1 = EU1) -> ER e0 s0 e1 (adv s0 1)).
+    { intros s0 x rest e0 e1 H0 X EQ.
+      assert (T : etrans rem_ e0 x = ([], Some e1))
+        by (destruct EQ as [[-> ->]|[[-> ->]|[-> ->]]]; cbn [etrans]; change (is_hex x) with (r_is_hex x); rewrite X; reflexivity).
+      eapply EReach_step; [exact H0|exact T|reflexivity|cbn; lia]. }
+    pose proof (HS _ _ _ EU4 EU3 H1 X1 ltac:(auto)) as R2. pose proof (At_adv1 data _ _ _ H1) as H2.
+    pose proof (HS _ _ _ EU3 EU2 H2 X2 ltac:(auto)) as R3. pose proof (At_adv1 data _ _ _ H2) as H3.
+    pose proof (HS _ _ _ EU2 EU1 H3 X3 ltac:(auto)) as R4. pose proof (At_adv1 data _ _ _ H3) as H4.
+    rewrite !adv_adv in *. cbn [Nat.add] in *.
+    (* the last hex digit: unescape *)
+    set (s4 := adv s 4) in *.
+    assert (SK : skipn (Z.to_nat (s_seg s4)) data = bs :: e :: h1 :: h2 :: h3 :: h4 :: r2).
+    { unfold s4. cbn [s_seg adv set_p]. rewrite SG. destruct AB as [_ SK]. exact SK. }
+    assert (SR : (0 <=? s_seg s4) && (s_seg s4 <=? pe) = true).
+    { unfold s4. cbn [s_seg adv set_p]. rewrite SG. destruct AB as [[A0 A1] _]. fold pe in A1.
+      apply andb_true_iff; split; apply Z.leb_le; lia. }
+    pose proof (uuc_ref bs e h1 h2 h3 h4 r2 u (s_dst s4) B E HX') as UU.
+    assert (T4 : etrans rem_ EU1 h4 = ([UUnescapeU; UNotOkRet; UAdvanceU], Some EStart)).
+    { cbn [etrans]. change (is_hex h4) with (r_is_hex h4). rewrite X4. reflexivity. }
+    assert (LEN6 : pair_of u r2 <> None -> (6 <= length r2)%nat).
+    { unfold pair_of. destruct (is_high u); [|congruence].
+      destruct r2 as [|b2 [|e2 [|g1 [|g2 [|g3 [|g4 r3]]]]]]; try congruence. intros _. cbn. lia. }
+    destruct (pair_of u r2) as [v|] eqn:PO; subst bytes extra.
+    - set (s5 := set_p (set_ub s4 (s_dst s4 ++ utf8 (pair_cp u v)) 12 true) (s_p s4 + (12 - 6))).
+      assert (R5 : ER EU1 s4 EStart (adv s5 1)).
+      { eapply EReach_step; [exact H4|exact T4| |unfold s5; cbn; lia].
+        cbn [exec_units exec_unit]. fold pe. rewrite SR, SK, UU. reflexivity. }
+      exists (adv s5 1). split; [|split; [|split; [|split]]].
+      + eapply EReach_trans; [exact R1|]. eapply EReach_trans; [exact R2|]. eapply EReach_trans; [exact R3|].
+        eapply EReach_trans; [exact R4|exact R5].
+      + unfold s5, s4. cbn. lia.
+      + assert (L6 := LEN6 ltac:(congruence)).
+        pose proof (At_adv data s4 (h4 :: r2) 7 H4 ltac:(cbn [length]; lia)) as A7. cbn [skipn] in A7.
+        unfold At in *. replace (s_p (adv s5 1)) with (s_p (adv s4 7)) by (unfold s5, s4; cbn; lia). exact A7.
+      + unfold s5, s4. cbn. reflexivity.
+      + unfold s5, s4. repeat split.
+    - set (s5 := set_ub s4 (s_dst s4 ++ single_bytes u) 6 true).
+      assert (R5 : ER EU1 s4 EStart (adv s5 1)).
+      { eapply EReach_step; [exact H4|exact T4| |unfold s5; cbn; lia].
+        cbn [exec_units exec_unit]. fold pe. rewrite SR, SK, UU. reflexivity. }
+      exists (adv s5 1). split; [|split; [|split; [|split]]].
+      + eapply EReach_trans; [exact R1|]. eapply EReach_trans; [exact R2|]. eapply EReach_trans; [exact R3|].
+        eapply EReach_trans; [exact R4|exact R5].
+      + unfold s5, s4. cbn. lia.
+      + cbn [skipn]. pose proof (At_adv1 data _ _ _ H4) as A5.
+        unfold At in *. replace (s_p (adv s5 1)) with (s_p (adv s4 1)) by (unfold s5, s4; cbn; lia). exact A5.
+      + unfold s5, s4. cbn. reflexivity.
+      + unfold s5, s4. repeat split.
+  Qed.
+End Esc.
+
+(** * appendRemainderOfString *)
+Lemma string_body_pos : forall l k, string_body l = Some k -> k = S (pred k).
+Proof.
+  intros [|b r] k H; [discriminate|]. cbn [string_body] in H.
+  destruct (isb 34 b); [inversion H; reflexivity|].
+  destruct (isb 92 b).
+  - destruct r as [|e r1]; [discriminate|]. destruct (simple_escape e).
+    + destruct (string_body r1); [|discriminate]. inversion H; reflexivity.
+    + destruct (isb 117 e); [|discriminate]. destruct r1 as [|h1 [|h2 [|h3 [|h4 r2]]]]; try discriminate.
+      destruct (r_is_hex h1 && r_is_hex h2 && r_is_hex h3 && r_is_hex h4); [|discriminate].
+      destruct (string_body r2); [|discriminate]. inversion H; reflexivity.
+  - destruct (r_is_ctl b); [discriminate|]. destruct (string_body r); [|discriminate]. inversion H; reflexivity.
+Qed.
+
+Lemma pair_string_body : forall u r2 v, pair_of u r2 = Some v ->
+  string_body r2 = option_map (fun n => (6 + n)%nat) (string_body (skipn 6 r2)).
+Proof.
+  intros u r2 v P. unfold pair_of in P. destruct (is_high u); [|discriminate].
+  destruct r2 as [|b2 [|e2 [|g1 [|g2 [|g3 [|g4 r3]]]]]]; try discriminate.
+  destruct (isb 92 b2) eqn:B; [|discriminate]. destruct (isb 117 e2) eqn:E; [|discriminate]. cbn [andb] in P.
+  destruct (hex4 g1 g2 g3 g4) as [x|] eqn:HX; [|discriminate].
+  cbn [string_body skipn].
+  assert (Q : isb 34 b2 = false) by (apply Z.eqb_eq in B; unfold isb; rewrite B; reflexivity).
+  assert (SE : simple_escape e2 = None) by (apply Z.eqb_eq in E; unfold simple_escape; rewrite E; reflexivity).
+  rewrite Q, B, SE, E. unfold hex4 in HX. destruct (r_is_hex g1 && r_is_hex g2 && r_is_hex g3 && r_is_hex g4); [reflexivity|discriminate].
+Qed.
+
+Section Append.
+  Variable md : Z.
+  Variable data : list byte.
+  Variable h : handler.
+  Let pe := len data.
+  Notation ER := (EReach md true data h).
+  Notation EE := (EEnds md true data h).
+  Notation AtS := (At data).
+
+  Lemma err_step : forall e s b r, AtS s (b :: r) -> etrans true e b = ([UReturnErr EInvalidString], None) -> EE e s IsErr.
+  Proof.
+    intros e s b r H T. eapply EEnds_step; [exact H| |]; rewrite T; cbn; [discriminate|].
+    intros f. do 3 eexists. reflexivity.
+  Qed.
+  Lemma err_eof : forall e s, AtS s [] -> eeof true e = [UReturnErr EInvalidString] -> EE e s IsErr.
+  Proof. intros e s H T f _. rewrite (econt_eof md true data h f e s H), T. cbn. do 3 eexists. reflexivity. Qed.
+
+  Lemma done_e : forall s l, AtS s l -> EE EDone s (fun o => o = ODone (s_p s) (s_err s) s).
+  Proof.
+    intros s [|b r] H.
+    - intros f _. rewrite (econt_eof md true data h f EDone s H). reflexivity.
+    - eapply EEnds_step; [exact H| |]; cbn; [discriminate|]. intros f. reflexivity.
+  Qed.
+
+  (** \u followed by something that is not four hex digits *)
+  Lemma esc_u_fail : forall s e r1, AtS s (e :: r1) -> isb 117 e = true ->
+    match r1 with
+    | h1 :: h2 :: h3 :: h4 :: _ => r_is_hex h1 && r_is_hex h2 && r_is_hex h3 && r_is_hex h4 = false
+    | _ => True
+    end -> EE EEsc s IsErr.
+  Proof.
+    intros s e r1 H E C.
+    assert (EB : escape_byte true e = None) by (apply Z.eqb_eq in E; unfold escape_byte; rewrite E; reflexivity).
+    assert (T0 : etrans true EEsc e = ([], Some EU4))
+      by (cbn [etrans]; rewrite EB; unfold is; change (bz e =? 117) with (isb 117 e); rewrite E; reflexivity).
+    assert (R1 : ER EEsc s EU4 (adv s 1)) by (eapply EReach_step; [exact H|exact T0|reflexivity|cbn; lia]).
+    pose proof (At_adv1 data _ _ _ H) as H1.
+    assert (GO : forall s0 x rest e0 e1, AtS s0 (x :: rest) -> r_is_hex x = true ->
+               (e0 = EU4 /\ e1 = EU3) \/ (e0 = EU3 /\ e1 = EU2) \/ (e0 = EU2 /\ e1 = EU1) -> ER e0 s0 e1 (adv s0 1)).
+    { intros s0 x rest e0 e1 H0 X EQ.
+      assert (T : etrans true e0 x = ([], Some e1))
+        by (destruct EQ as [[-> ->]|[[-> ->]|[-> ->]]]; cbn [etrans]; change (is_hex x) with (r_is_hex x); rewrite X; reflexivity).
+      eapply EReach_step; [exact H0|exact T|reflexivity|cbn; lia]. }
+    assert (BAD : forall s0 x rest e0, AtS s0 (x :: rest) -> r_is_hex x = false ->
+               (e0 = EU4 \/ e0 = EU3 \/ e0 = EU2 \/ e0 = EU1) -> EE e0 s0 IsErr).
+    { intros s0 x rest e0 H0 X EQ. eapply err_step; [exact H0|].
+      destruct EQ as [->|[->|[->| ->]]]; cbn [etrans]; change (is_hex x) with (r_is_hex x); rewrite X; reflexivity. }
+    assert (EOFU : forall s0 e0, AtS s0 [] -> (e0 = EU4 \/ e0 = EU3 \/ e0 = EU2 \/ e0 = EU1) -> EE e0 s0 IsErr).
+    { intros s0 e0 H0 EQ. apply err_eof; [exact H0|]. destruct EQ as [->|[->|[->| ->]]]; reflexivity. }
+    eapply EReach_Ends; [exact R1|].
+    destruct r1 as [|h1 r]; [apply EOFU; auto|].
+    destruct (r_is_hex h1) eqn:X1; [|eapply BAD; eauto].
+    eapply EReach_Ends; [eapply (GO _ _ _ EU4 EU3); eauto|]. pose proof (At_adv1 data _ _ _ H1) as H2.
+    destruct r as [|h2 r]; [apply EOFU; auto|].
+    destruct (r_is_hex h2) eqn:X2; [|eapply BAD; eauto].
+    eapply EReach_Ends; [eapply (GO _ _ _ EU3 EU2); eauto|]. pose proof (At_adv1 data _ _ _ H2) as H3.
+    destruct r as [|h3 r]; [apply EOFU; auto|].
+    destruct (r_is_hex h3) eqn:X3; [|eapply BAD; eauto].
+    eapply EReach_Ends; [eapply (GO _ _ _ EU2 EU1); eauto|]. pose proof (At_adv1 data _ _ _ H3) as H4.
+    destruct r as [|h4 r]; [apply EOFU; auto 6|].
+    cbn [andb] in C. destruct (r_is_hex h4) eqn:X4; [discriminate|]. eapply BAD; eauto 6.
+  Qed.
+
+  (** malformed string content is refused *)
+  Lemma append_fail : forall n l s pend, (length l <= n)%nat -> AtS s l -> Pend data s pend l ->
+    string_body l = None -> EE (est pend) s IsErr.
+  Proof.
+    induction n as [|n IH]; intros l s pend L H P SBN.
+    - destruct l; [|cbn in L; lia]. apply err_eof; [exact H|destruct pend; reflexivity].
+    - destruct l as [|b r]; [apply err_eof; [exact H|destruct pend; reflexivity]|].
+      cbn [string_body] in SBN. cbn [length] in L. pose proof (etrans_content true pend b) as TC.
+      destruct (isb 34 b) eqn:Q; [discriminate|].
+      destruct (isb 92 b) eqn:B.
+      { destruct (step_bslash md true data h s pend b r H P B) as (s1 & R1 & H1 & SG1 & AB1 & P1 & D1 & S1).
+        eapply EReach_Ends; [exact R1|].
+        destruct r as [|e r1]; [apply err_eof; [exact H1|reflexivity]|].
+        destruct (simple_escape e) as [x|] eqn:SE.
+        - pose proof (step_simple md true data h s1 e r1 x H1 SE) as R2.
+          eapply EReach_Ends; [exact R2|].
+          apply (IH r1 _ None); [cbn [length] in L; lia| |exact I|].
+          + apply (At_adv1 data (set_dst s1 (s_dst s1 ++ [zb x])) e r1); exact H1.
+          + destruct (string_body r1); [discriminate|reflexivity].
+        - destruct (isb 117 e) eqn:E.
+          2:{ eapply err_step; [exact H1|].
+              assert (EB : escape_byte true e = None).
+              { unfold simple_escape in SE. unfold escape_byte. cbv zeta in *.
+                destruct (bz e =? 34); [discriminate|]. destruct (bz e =? 92); [discriminate|]. destruct (bz e =? 47); [discriminate|].
+                destruct (bz e =? 98); [discriminate|]. destruct (bz e =? 102); [discriminate|]. destruct (bz e =? 110); [discriminate|].
+                destruct (bz e =? 114); [discriminate|]. destruct (bz e =? 116); [discriminate|]. reflexivity. }
+              cbn [etrans]. rewrite EB. unfold is. change (bz e =? 117) with (isb 117 e). rewrite E. reflexivity. }
+          destruct r1 as [|h1 [|h2 [|h3 [|h4 r2]]]];
+            try (eapply esc_u_fail; [exact H1|exact E|exact I]).
+          destruct (r_is_hex h1 && r_is_hex h2 && r_is_hex h3 && r_is_hex h4) eqn:HX.
+          2:{ eapply esc_u_fail; [exact H1|exact E|exact HX]. }
+          assert (HX4 : exists u, hex4 h1 h2 h3 h4 = Some u) by (unfold hex4; rewrite HX; eauto).
+          destruct HX4 as [u HX4].
+          destruct (step_unicode md true data h s1 b e h1 h2 h3 h4 r2 u H1 SG1 AB1 B E HX4) as (s2 & R2 & P2 & H2 & D2 & S2).
+          eapply EReach_Ends; [exact R2|].
+          assert (SB2 : string_body r2 = None) by (destruct (string_body r2); [discriminate|reflexivity]).
+          destruct (pair_of u r2) as [v|] eqn:PO.
+          + rewrite (pair_string_body u r2 v PO) in SB2.
+            apply (IH (skipn 6 r2) _ None); [rewrite skipn_length; cbn [length] in L; lia|exact H2|exact I|].
+            destruct (string_body (skipn 6 r2)); [discriminate|reflexivity].
+          + apply (IH r2 _ None); [cbn [length] in L; lia|exact H2|exact I|exact SB2]. }
+      destruct (r_is_ctl b) eqn:C.
+      { eapply err_step; [exact H|exact TC]. }
+      destruct (step_plain md true data h s pend b r H P B Q C) as (s1 & R1 & H1 & P1 & PP1 & D1 & S1).
+      eapply EReach_Ends; [exact R1|].
+      apply (IH r s1 (Some b)); [lia|exact H1|exact P1|]. destruct (string_body r); [discriminate|reflexivity].
+  Qed.
+End Append.
+
+(** * Well-formed content: pure facts *)
+Definition quote_or_end (tail : list byte) : Prop := tail = [] \/ exists q rest, tail = q :: rest /\ isb 34 q = true.
+
+Lemma quote_not : forall q, isb 34 q = true -> isb 92 q = false /\ isb 117 q = false /\ r_is_hex q = false.
+Proof. intros q H. apply Z.eqb_eq in H. unfold isb, r_is_hex, hexval. rewrite H. auto. Qed.
+
+Lemma pair_of_app : forall u c2 tail, quote_or_end tail -> pair_of u (c2 ++ tail) = pair_of u c2.
+Proof.
+  intros u c2 tail [->|(q & rest & -> & Q)]; [rewrite app_nil_r; reflexivity|].
+  destruct (quote_not q Q) as (N1 & N2 & N3).
+  unfold pair_of. destruct (is_high u); [|reflexivity].
+  destruct c2 as [|x1 [|x2 [|x3 [|x4 [|x5 [|x6 c3]]]]]]; cbn [app]; try reflexivity;
+    destruct rest as [|y1 [|y2 [|y3 [|y4 [|y5 rest']]]]]; try reflexivity;
+    unfold hex4; rewrite ?N1, ?N2, ?N3, ?andb_false_r; cbn [andb];
+    repeat match goal with |- context [if ?c then _ else _] => destruct c end; reflexivity.
+Qed.
+
+Lemma low_not_high : forall v, is_low v = true -> is_high v = false.
+Proof.
+  intros v H. unfold is_low, is_high in *. apply andb_true_iff in H. destruct H as [A _]. apply Z.leb_le in A.
+  destruct (55296 <=? v); [|reflexivity]. cbn. apply Z.ltb_ge. lia.
+Qed.
+
+Lemma pair_of_shape : forall u r2 v, pair_of u r2 = Some v ->
+  exists b2 e2 g1 g2 g3 g4 r3, r2 = b2 :: e2 :: g1 :: g2 :: g3 :: g4 :: r3 /\ isb 92 b2 = true /\ isb 117 e2 = true /\
+                               hex4 g1 g2 g3 g4 = Some v /\ is_low v = true.
+Proof.
+  intros u r2 v P. unfold pair_of in P. destruct (is_high u); [|discriminate].
+  destruct r2 as [|b2 [|e2 [|g1 [|g2 [|g3 [|g4 r3]]]]]]; try discriminate.
+  destruct (isb 92 b2) eqn:B; [|discriminate]. destruct (isb 117 e2) eqn:E; [|discriminate]. cbn [andb] in P.
+  destruct (hex4 g1 g2 g3 g4) as [x|] eqn:HX; [|discriminate]. destruct (is_low x) eqn:LO; [|discriminate]. inversion P; subst x.
+  exists b2, e2, g1, g2, g3, g4, r3. auto.
+Qed.
+
+(** after a pair, the content behind the second escape is well formed too *)
+Lemma decode_after_pair : forall u c2 v out2, pair_of u c2 = Some v -> decode_content c2 = Some out2 ->
+  exists o3, decode_content (skipn 6 c2) = Some o3.
+Proof.
+  intros u c2 v out2 P D. destruct (pair_of_shape u c2 v P) as (b2 & e2 & g1 & g2 & g3 & g4 & r3 & -> & B & E & HX & LO).
+  rewrite (decode_u b2 e2 g1 g2 g3 g4 r3 v B E HX) in D.
+  assert (PN : pair_of v r3 = None) by (unfold pair_of; rewrite (low_not_high v LO); reflexivity).
+  rewrite PN in D. cbn [skipn]. destruct (decode_content r3) as [o3|]; [eauto|discriminate].
+Qed.
+
+(** a string body is well-formed content followed by the closing quote *)
+Lemma string_body_split : forall l k, string_body l = Some k ->
+  exists c q rest out, l = c ++ q :: rest /\ isb 34 q = true /\ k = S (length c) /\ decode_content c = Some out.
+Proof.
+  assert (G : forall n l k, (length l <= n)%nat -> string_body l = Some k ->
+              exists c q rest out, l = c ++ q :: rest /\ isb 34 q = true /\ k = S (length c) /\ decode_content c = Some out).
+  { induction n as [|n IH]; intros l k L E.
+    - destruct l; [discriminate|cbn in L; lia].
+    - destruct l as [|b r]; [discriminate|]. cbn [string_body] in E. cbn [length] in L.
+      destruct (isb 34 b) eqn:Q.
+      { inversion E. exists [], b, r, []. auto. }
+      destruct (isb 92 b) eqn:B.
+      + destruct r as [|e r1]; [discriminate|].
+        destruct (simple_escape e) as [x|] eqn:SE.
+        * destruct (string_body r1) as [k1|] eqn:E1; [|discriminate]. inversion E.
+          destruct (IH r1 k1 ltac:(cbn [length] in L; lia) E1) as (c1 & q & rest & o1 & -> & QQ & -> & D1).
+          exists (b :: e :: c1), q, rest, (zb x :: o1). split; [reflexivity|]. split; [exact QQ|]. split; [reflexivity|].
+          cbn [decode_content]. rewrite B, SE, D1. reflexivity.
+        * destruct (isb 117 e) eqn:EU; [|discriminate].
+          destruct r1 as [|h1 [|h2 [|h3 [|h4 r2]]]]; try discriminate.
+          destruct (r_is_hex h1 && r_is_hex h2 && r_is_hex h3 && r_is_hex h4) eqn:HX; [|discriminate].
+          destruct (string_body r2) as [k2|] eqn:E2; [|discriminate]. inversion E.
+          destruct (IH r2 k2 ltac:(cbn [length] in L; lia) E2) as (c2 & q & rest & o2 & -> & QQ & -> & D2).
+          assert (HX4 : exists u, hex4 h1 h2 h3 h4 = Some u) by (unfold hex4; rewrite HX; eauto). destruct HX4 as [u HX4].
+          pose proof (decode_u b e h1 h2 h3 h4 c2 u B EU HX4) as DU.
+          exists (b :: e :: h1 :: h2 :: h3 :: h4 :: c2), q, rest.
+          destruct (pair_of u c2) as [v|] eqn:PO.
+          -- destruct (decode_after_pair u c2 v o2 PO D2) as (o3 & D3). rewrite D3 in DU.
+             eexists. split; [reflexivity|]. split; [exact QQ|]. split; [reflexivity|exact DU].
+          -- rewrite D2 in DU. eexists. split; [reflexivity|]. split; [exact QQ|]. split; [reflexivity|exact DU].
+      + destruct (r_is_ctl b) eqn:C; [discriminate|].
+        destruct (string_body r) as [k1|] eqn:E1; [|discriminate]. inversion E.
+        destruct (IH r k1 ltac:(lia) E1) as (c1 & q & rest & o1 & -> & QQ & -> & D1).
+        exists (b :: c1), q, rest, (b :: o1). split; [reflexivity|]. split; [exact QQ|]. split; [reflexivity|].
+        cbn [decode_content]. rewrite B, Q, C, D1. reflexivity. }
+  intros l k E. exact (G (length l) l k (le_n _) E).
+Qed.
+
+(** and conversely *)
+Lemma content_string_body : forall c out q rest, decode_content c = Some out -> isb 34 q = true ->
+  string_body (c ++ q :: rest) = Some (S (length c)).
+Proof.
+  assert (G : forall n c out q rest, (length c <= n)%nat -> decode_content c = Some out -> isb 34 q = true ->
+              string_body (c ++ q :: rest) = Some (S (length c))).
+  { induction n as [|n IH]; intros c out q rest L D Q.
+    - destruct c; [|cbn in L; lia]. cbn. rewrite Q. reflexivity.
+    - destruct c as [|b c1]; [cbn; rewrite Q; reflexivity|]. cbn [app string_body]. cbn [decode_content] in D. cbn [length] in L.
+      destruct (isb 92 b) eqn:B.
+      + assert (Q0 : isb 34 b = false) by (apply Z.eqb_eq in B; unfold isb; rewrite B; reflexivity). rewrite Q0.
+        destruct c1 as [|e c2]; [discriminate|]. cbn [app].
+        destruct (simple_escape e) as [x|] eqn:SE.
+        * destruct (decode_content c2) as [o2|] eqn:D2; [|discriminate].
+          rewrite (IH c2 o2 q rest ltac:(cbn [length] in L; lia) D2 Q). reflexivity.
+        * destruct (isb 117 e) eqn:EU; [|discriminate].
+          destruct c2 as [|h1 [|h2 [|h3 [|h4 c3]]]]; try discriminate. cbn [app].
+          destruct (hex4 h1 h2 h3 h4) as [u|] eqn:HX4; [|discriminate].
+          assert (HX : r_is_hex h1 && r_is_hex h2 && r_is_hex h3 && r_is_hex h4 = true).
+          { unfold hex4 in HX4. destruct (r_is_hex h1 && r_is_hex h2 && r_is_hex h3 && r_is_hex h4); [reflexivity|discriminate]. }
+          rewrite HX.
+          assert (D3 : exists o3, decode_content c3 = Some o3).
+          { assert (DU := decode_u b e h1 h2 h3 h4 c3 u B EU HX4). cbn [decode_content] in DU. rewrite B, SE, EU, HX4 in DU.
+            rewrite DU in D. destruct (pair_of u c3) as [v|] eqn:PO.
+            - destruct (pair_of_shape u c3 v PO) as (b2 & e2 & g1 & g2 & g3 & g4 & r3 & -> & B2 & E2 & HV & LO).
+              cbn [skipn] in D. destruct (decode_content r3) as [o4|] eqn:D4; [|discriminate].
+              rewrite (decode_u b2 e2 g1 g2 g3 g4 r3 v B2 E2 HV).
+              assert (PN : pair_of v r3 = None) by (unfold pair_of; rewrite (low_not_high v LO); reflexivity).
+              rewrite PN, D4. cbn. eauto.
+            - destruct (decode_content c3) as [o3|]; [eauto|discriminate]. }
+          destruct D3 as [o3 D3].
+          rewrite (IH c3 o3 q rest ltac:(cbn [length] in L; lia) D3 Q). reflexivity.
+      + destruct (isb 34 b) eqn:Q0; [discriminate|]. destruct (r_is_ctl b) eqn:C; [cbn [orb] in D; discriminate|]. cbn [orb] in D.
+        destruct (decode_content c1) as [o1|] eqn:D1; [|discriminate].
+        rewrite (IH c1 o1 q rest ltac:(lia) D1 Q). reflexivity. }
+  intros c out q rest D Q. exact (G (length c) c out q rest (le_n _) D Q).
+Qed.
+
+Lemma skipn_app_ge : forall {A} n (l t : list A), (n <= length l)%nat -> skipn n (l ++ t) = skipn n l ++ t.
+Proof. intros A n. induction n as [|n IH]; intros [|x l] t L; cbn in *; auto; try lia. apply IH. lia. Qed.
+
+(** * Both escape machines walk through well-formed content and produce its decoding *)
+Section Walk.
+  Variable md : Z.
+  Variable rem_ : bool.
+  Variable data : list byte.
+  Variable h : handler.
+  Notation ER := (EReach md rem_ data h).
+  Notation AtS := (At data).
+
+  Lemma walk : forall n c s pend out tail, (length c <= n)%nat -> AtS s (c ++ tail) -> Pend data s pend (c ++ tail) ->
+    decode_content c = Some out -> quote_or_end tail ->
+    exists pend' s', ER (est pend) s (est pend') s' /\ AtS s' tail /\ Pend data s' pend' tail /\
+                     s_p s' = s_p s + Z.of_nat (length c) /\ ldst s' pend' = ldst s pend ++ out /\ Same s s'.
+  Proof.
+    induction n as [|n IH]; intros c s pend out tail L H P D QE.
+    - destruct c; [|cbn in L; lia]. cbn in D. inversion D. exists pend, s.
+      split; [apply EReach_refl|]. split; [exact H|]. split; [exact P|]. split; [cbn; lia|]. split; [rewrite app_nil_r; reflexivity|apply Same_refl].
+    - destruct c as [|b c1].
+      { cbn in D. inversion D. exists pend, s.
+        split; [apply EReach_refl|]. split; [exact H|]. split; [exact P|]. split; [cbn; lia|]. split; [rewrite app_nil_r; reflexivity|apply Same_refl]. }
+      cbn [app] in H, P. cbn [decode_content] in D. cbn [length] in L.
+      destruct (isb 92 b) eqn:B.
+      + destruct (step_bslash md rem_ data h s pend b (c1 ++ tail) H P B) as (s1 & R1 & H1 & SG1 & AB1 & P1 & D1 & S1).
+        destruct c1 as [|e c2]; [discriminate|]. cbn [app] in *.
+        destruct (simple_escape e) as [x|] eqn:SE.
+        * destruct (decode_content c2) as [o2|] eqn:D2; [|discriminate]. cbn in D. inversion D; subst out.
+          pose proof (step_simple md rem_ data h s1 e (c2 ++ tail) x H1 SE) as R2.
+          set (s2 := adv (set_dst s1 (s_dst s1 ++ [zb x])) 1) in *.
+          assert (H2 : AtS s2 (c2 ++ tail)) by (apply (At_adv1 data (set_dst s1 (s_dst s1 ++ [zb x])) e _); exact H1).
+          destruct (IH c2 s2 None o2 tail ltac:(cbn [length] in L; lia) H2 I D2 QE) as (pend' & s' & R3 & H3 & P3 & PP3 & D3 & S3).
+          exists pend', s'. split; [eapply EReach_trans; [exact R1|]; eapply EReach_trans; [exact R2|exact R3]|].
+          split; [exact H3|]. split; [exact P3|].
+          split; [rewrite PP3; unfold s2; cbn [s_p adv set_p set_dst length]; rewrite P1; lia|].
+          split; [rewrite D3; unfold s2; cbn [ldst s_dst adv set_p set_dst]; rewrite D1, <- app_assoc; reflexivity|].
+          eapply Same_trans; [exact S1|]. eapply Same_trans; [|exact S3]. unfold s2. repeat split.
+        * destruct (isb 117 e) eqn:E; [|discriminate].
+          destruct c2 as [|h1 [|h2 [|h3 [|h4 c3]]]]; try discriminate. cbn [app] in *.
+          destruct (hex4 h1 h2 h3 h4) as [u|] eqn:HX4; [|discriminate].
+          destruct (step_unicode md rem_ data h s1 b e h1 h2 h3 h4 (c3 ++ tail) u H1 SG1 AB1 B E HX4) as (s2 & R2 & P2 & H2 & D2 & S2).
+          rewrite (pair_of_app u c3 tail QE) in P2, H2, D2.
+          assert (DU := decode_u b e h1 h2 h3 h4 c3 u B E HX4). cbn [decode_content] in DU. rewrite B, SE, E, HX4 in DU.
+          rewrite DU in D. clear DU.
+          destruct (pair_of u c3) as [v|] eqn:PO.
+          -- destruct (pair_of_shape u c3 v PO) as (b2 & e2 & g1 & g2 & g3 & g4 & r3 & EQ & _).
+             assert (L6 : (6 <= length c3)%nat) by (rewrite EQ; cbn; lia).
+             rewrite (skipn_app_ge 6 c3 tail L6) in H2.
+             destruct (decode_content (skipn 6 c3)) as [o3|] eqn:D3; [|discriminate]. cbn in D. inversion D; subst out.
+             destruct (IH (skipn 6 c3) s2 None o3 tail ltac:(rewrite skipn_length; cbn [length] in L; lia) H2 I D3 QE)
+               as (pend' & s' & R3 & H3 & P3 & PP3 & DD3 & S3).
+             exists pend', s'. split; [eapply EReach_trans; [exact R1|]; eapply EReach_trans; [exact R2|exact R3]|].
+             split; [exact H3|]. split; [exact P3|].
+             split; [rewrite PP3, P2, P1, skipn_length; cbn [length]; lia|].
+             split; [rewrite DD3; cbn [ldst]; rewrite D2, D1, <- app_assoc; reflexivity|].
+             eapply Same_trans; [exact S1|]. eapply Same_trans; [exact S2|exact S3].
+          -- cbn [skipn] in H2.
+             destruct (decode_content c3) as [o3|] eqn:D3; [|discriminate]. cbn in D. inversion D; subst out.
+             destruct (IH c3 s2 None o3 tail ltac:(cbn [length] in L; lia) H2 I D3 QE) as (pend' & s' & R3 & H3 & P3 & PP3 & DD3 & S3).
+             exists pend', s'. split; [eapply EReach_trans; [exact R1|]; eapply EReach_trans; [exact R2|exact R3]|].
+             split; [exact H3|]. split; [exact P3|].
+             split; [rewrite PP3, P2, P1; cbn [length]; lia|].
+             split; [rewrite DD3; cbn [ldst]; rewrite D2, D1, <- app_assoc; reflexivity|].
+             eapply Same_trans; [exact S1|]. eapply Same_trans; [exact S2|exact S3].
+      + destruct (isb 34 b) eqn:Q; [discriminate|]. destruct (r_is_ctl b) eqn:C; [discriminate|]. cbn [orb] in D.
+        destruct (decode_content c1) as [o1|] eqn:D1; [|discriminate]. cbn in D. inversion D; subst out.
+        destruct (step_plain md rem_ data h s pend b (c1 ++ tail) H P B Q C) as (s1 & R1 & H1 & P1 & PP1 & DD1 & S1).
+        destruct (IH c1 s1 (Some b) o1 tail ltac:(lia) H1 P1 D1 QE) as (pend' & s' & R3 & H3 & P3 & PP3 & DD3 & S3).
+        exists pend', s'. split; [eapply EReach_trans; [exact R1|exact R3]|].
+        split; [exact H3|]. split; [exact P3|]. split; [rewrite PP3, PP1; cbn [length]; lia|].
+        split; [rewrite DD3, DD1, <- app_assoc; reflexivity|]. eapply Same_trans; eauto.
+  Qed.
+End Walk.
